@@ -10,10 +10,12 @@ pub mod c05;
 pub mod c06;
 pub mod c07;
 pub mod c08;
+pub mod c09;
 pub mod c10;
+pub mod c11;
 pub mod c17;
 
-pub const IDS: &[&str] = &["C01", "C02", "C03", "C04", "C05", "C06", "C07", "C08", "C10", "C17"];
+pub const IDS: &[&str] = &["C01", "C02", "C03", "C04", "C05", "C06", "C07", "C08", "C09", "C10", "C11", "C17"];
 
 macro_rules! dispatch {
     ($id:expr, $f:ident, $($arg:expr),*) => {
@@ -26,7 +28,9 @@ macro_rules! dispatch {
             "C06" => $f(&c06::C06, $($arg),*),
             "C07" => $f(&c07::C07, $($arg),*),
             "C08" => $f(&c08::C08, $($arg),*),
+            "C09" => $f(&c09::C09, $($arg),*),
             "C10" => $f(&c10::C10, $($arg),*),
+            "C11" => $f(&c11::C11, $($arg),*),
             "C17" => $f(&c17::C17, $($arg),*),
             other => {
                 eprintln!("unknown property {other}");
